@@ -39,7 +39,8 @@ def expressions(tier: str, seed: int) -> list[tuple[str, str]]:
                  "ASCII_ALPHANUMERIC", "ASCII", "ASCII_ALPHA_LOWER", "ASCII_ALPHA_UPPER", "ASCII_ALPHA", "NEWLINE",
                  "ANY"):
         out.append((name, name))
-    bounds = [0, 0x7F, 0x80, 0xD7FF, 0xD800, 0xDFFF, 0xE000, 0xFFFF, 0x10000, 0x10FFFF,
+    # (surrogates D800..DFFF are not scalar values and cannot be written in a grammar: only D7FF / E000 are end points)
+    bounds = [0, 0x7F, 0x80, 0xD7FF, 0xE000, 0xFFFF, 0x10000, 0x10FFFF,
               ord("]"), ord("-"), ord("^"), ord("\\"), ord("["), ord("&"), ord("|"), ord("~"), ord("a"), ord("z"),
               ord("A"), ord("Z"), ord("k"), 0x212A, ord("s"), 0x17F, 0xDF, 0x130, 0x131]
     ranges = [(ord("a"), ord("z")), (ord("A"), ord("Z")), (ord("["), ord("^")), (ord("*"), ord("-")),
@@ -48,6 +49,10 @@ def expressions(tier: str, seed: int) -> list[tuple[str, str]]:
     n_rand = 30 if tier == "thorough" else 4
     for _ in range(n_rand):
         a, b = sorted((rng.choice(bounds), rng.choice(bounds)))
+        if 0xD800 <= a <= 0xDFFF or 0xD800 <= b <= 0xDFFF:
+            # a surrogate is not a Unicode scalar value: '\u{D800}' cannot be written in a pest grammar (the front end
+            # rejects it, as pest does), so it cannot be a range END POINT; ranges spanning the gap are covered above
+            continue
         ranges.append((a, b))
     for a, b in ranges:
         out.append((f"range {a:X}..{b:X}", f"{esc_char(a)}..{esc_char(b)}"))
@@ -230,6 +235,29 @@ def escapes_check():
             except Exception as e:  # noqa: BLE001
                 bad.append({"escape": esc, "kind": kind, "what": f"does not denote U+{cp:04X} ({type(e).__name__})",
                             "cp": cp})
+    # escapes IN CONTEXT: a prefix, a suffix, and adjacent escapes in one string literal; the whole literal
+    # must denote exactly the concatenation (accept it, reject it with the last character removed or changed)
+    for esc, cp in cases:
+        for pre, suf in (("", "B"), ("A", ""), ("A", "B")):
+            for esc2, cp2 in (("", None), ("\\u{42}", 0x42), ("\\x43", 0x43), ("\\n", 10)):
+                lit = pre + esc + esc2 + suf
+                want = pre + chr(cp) + ("" if cp2 is None else chr(cp2)) + suf
+                n += 1
+                try:
+                    p = Parser.from_grammar(f'r = {{ SOI ~ "{lit}" ~ EOI }}\n', optimizer=None)
+                except Exception as e:  # noqa: BLE001
+                    bad.append({"escape": lit, "kind": "string", "what": f"rejected: {type(e).__name__}", "cp": cp})
+                    continue
+                for text, ok in ((want, True), (want[:-1], False), (want + "B", False)):
+                    try:
+                        p.parse("r", text)
+                        got = True
+                    except Exception:  # noqa: BLE001
+                        got = False
+                    if got != ok:
+                        bad.append({"escape": lit, "kind": "string",
+                                    "what": f"{'rejects' if ok else 'accepts'} {text!r} (it denotes {want!r})", "cp": cp})
+                        break
     return n, bad
 
 
